@@ -216,6 +216,121 @@ def rules(rep, m):
                     r5.ok()
 
 
+    # R-C16-6 ------------------------------------------------------------
+    r6 = rep.rule("R-C16-6", "boundary parameters: with a parameter pinned at a closed end of its asserted range (p = 1, ...) "
+                  "the interval of the value returned - random draws replaced by their ranges - is not entirely outside the "
+                  "support the function itself asserts for its result (an over-approximation that lies wholly outside the "
+                  "support means every draw at that parameter value is wrong)", floor=2)
+    from ..vals import any_assert_condition
+    from ..engines.interval import Eval, Iv, INF
+
+    def definitely(e, cond):
+        """True / False / None for a comparison (or conjunction) under the evaluator's intervals."""
+        c = strip(cond, casts=True)
+        if c["kind"] == "BinaryOperator" and c.get("opcode") == "&&":
+            a, b = definitely(e, kids(c)[0]), definitely(e, kids(c)[1])
+            if a is False or b is False:
+                return False
+            return True if (a is True and b is True) else None
+        if c["kind"] == "BinaryOperator" and c.get("opcode") == "||":
+            a, b = definitely(e, kids(c)[0]), definitely(e, kids(c)[1])
+            if a is True or b is True:
+                return True
+            return False if (a is False and b is False) else None
+        if c["kind"] == "UnaryOperator" and c.get("opcode") == "!":
+            d = definitely(e, kids(c)[0])
+            return None if d is None else (not d)
+        if c["kind"] != "BinaryOperator" or c.get("opcode") not in ("<", "<=", ">", ">=", "==", "!="):
+            return None
+        a, b = e.ev(kids(c)[0]), e.ev(kids(c)[1])
+        if a is None or b is None:
+            return None
+        op = c["opcode"]
+        if op in ("==", "!="):
+            same = a.lo == a.hi == b.lo == b.hi
+            apart = a.hi < b.lo or b.hi < a.lo
+            if same:
+                return op == "=="
+            if apart:
+                return op == "!="
+            return None
+        if op in (">", ">="):
+            a, b, op = b, a, {">": "<", ">=": "<="}[op]
+        # a op b with op in (<, <=)
+        if op == "<=":
+            if a.hi <= b.lo:
+                return True
+            if a.lo > b.hi or (a.lo == b.hi and not (a.lc and b.hc)):
+                return False
+        else:
+            if a.hi < b.lo or (a.hi == b.lo and not (a.hc and b.lc)):
+                return True
+            if a.lo >= b.hi:
+                return False
+        return None
+
+    for f in sorted(rnd, key=lambda f_: f_.name):
+        if not f.name.startswith("cmb_random_"):
+            continue
+        cx = FuncCtx(m, f)
+        e0 = Eval(m, f, cx, any_assert_condition, guards=False)
+        # closed finite ends that come from an assertion (not from the parameter's type)
+        asserted = set()
+        for s_ in kids(f.body):
+            c = any_assert_condition(s_)
+            if c is not None:
+                asserted |= {y["ref"]["name"] for y in walk(c) if y["kind"] == "DeclRefExpr"}
+        ends = [(p_, iv.lo) for p_, iv in e0.params.items() if p_ in asserted and iv.lc and abs(iv.lo) != INF] + \
+               [(p_, iv.hi) for p_, iv in e0.params.items() if p_ in asserted and iv.hc and abs(iv.hi) != INF]
+        # the result's asserted support: assertions that come after the first statement that is not an assertion
+        stmts = kids(f.body)
+        first_code = next((i for i, s_ in enumerate(stmts) if any_assert_condition(s_) is None), len(stmts))
+        posts = [any_assert_condition(s_) for s_ in stmts[first_code:] if any_assert_condition(s_) is not None]
+        if not ends or not posts:
+            continue
+        for p_, v_ in ends:
+            e = Eval(m, f, cx, any_assert_condition, guards=False)
+            e.params[p_] = Iv.point(v_)
+            e.with_random = True
+            reach = True
+            for s_ in stmts:
+                if s_["kind"] == "IfStmt" and len(kids(s_)) == 2:
+                    body = kids(s_)[1]
+                    last = kids(body)[-1] if body["kind"] == "CompoundStmt" and kids(body) else body
+                    if last["kind"] == "ReturnStmt" and definitely(e, kids(s_)[0]) is True:
+                        reach = False       # the function returns here for this parameter value
+                        # the value returned here has to lie in the support asserted for the final result
+                        fin = [x for x in walk(f.body) if x["kind"] == "ReturnStmt" and kids(x)]
+                        fv = strip(kids(fin[-1])[0], casts=True) if fin else None
+                        eiv = e.ev(kids(last)[0]) if kids(last) else None
+                        if fv is not None and fv["kind"] == "DeclRefExpr" and eiv is not None and last is not fin[-1]:
+                            e.override = {fv["ref"]["id"]: eiv}
+                            ev_ = [definitely(e, c) for c in posts]
+                            e.override = {}
+                            if any(d is False for d in ev_):
+                                rep.finding(r6, f.name, "boundary-early:%s=%g" % (p_, v_), "%s with %s = %g returns early with a "
+                                            "value in %s, outside its own asserted support %s" %
+                                            (f.name, p_, v_, eiv.show(), [render(c) for c, d in zip(posts, ev_) if d is False]),
+                                            where=m.rel(loc(last)))
+                                r6.fail()
+                        break
+            verdicts = [definitely(e, c) for c in posts] if reach else []
+            r6.instance("%s at %s = %g: %s" % (f.name, p_, v_, ["%s: %s" % (render(c)[:40], d) for c, d in zip(posts, verdicts)]
+                                              if reach else "returns early"))
+            rep.sample({"rule": "R-C16-6", "function": f.name, "pinned": "%s = %g" % (p_, v_),
+                        "post": [[render(c)[:60], str(d)] for c, d in zip(posts, verdicts)]})
+            if any(d is False for d in verdicts):
+                bad = [render(c) for c, d in zip(posts, verdicts) if d is False]
+                ret = [x for x in walk(f.body) if x["kind"] == "ReturnStmt" and kids(x)]
+                riv = e.ev(kids(ret[-1])[0]) if ret else None
+                rep.finding(r6, f.name, "boundary:%s=%g" % (p_, v_), "%s with %s = %g (admitted by its precondition) returns a "
+                            "value in %s for every random draw, outside its own asserted support %s" %
+                            (f.name, p_, v_, riv.show() if riv else "?", bad), where=m.rel(f.where))
+                r6.fail()
+            else:
+                r6.ok()
+
+
 def run(tier="quick"):
     models = common.load_models(tier)
     rep = Report(PID, tier, models[0])
